@@ -83,6 +83,7 @@ func c10Cases(tier string, seed int64) []core.Case {
 	cases = append(cases, core.Case{ID: "oversize-after-lower-negotiation", Run: func(ctx *core.Ctx) core.Result { return c10NegotiatedDown(ctx) }})
 	cases = append(cases, core.Case{ID: "shared-completion-channel", Run: func(ctx *core.Ctx) core.Result { return c10SharedDone(ctx) }})
 	cases = append(cases, core.Case{ID: "tagiface", Run: func(ctx *core.Ctx) core.Result { return c10TagIface(ctx) }})
+	cases = append(cases, core.Case{ID: "unmount-after-complete-reply", Run: func(ctx *core.Ctx) core.Result { return c10UnmountAfterReply(ctx) }})
 	return cases
 }
 
@@ -1117,3 +1118,81 @@ func waitUntil(pred func() bool, d time.Duration) bool {
 	}
 	return true
 }
+
+// c10UnmountAfterReply: Unmount is called when a complete reply has just been read from the transport (the client's
+// reader is still inside its Read call, the bytes are already its own) and part of the next reply with it. "A reply
+// that was completely received before the failure is delivered to its caller": the first call succeeds with its own
+// data, the second and a later call fail, nothing blocks.
+func c10UnmountAfterReply(ctx *core.Ctx) core.Result {
+	var res core.Result
+	for round := 0; round < 12 && len(res.Violations) == 0; round++ {
+		dotu := round%2 == 0
+		s, err := connect(8192, dotu, false)
+		if err != nil {
+			res.Inconclusive = "c10: " + err.Error()
+			return res
+		}
+		k := 2 + round%3
+		results := make([]string, k)
+		var wg sync.WaitGroup
+		for i := 0; i < k; i++ {
+			wg.Add(1)
+			go func(i int) {
+				defer wg.Done()
+				results[i] = s.do(call{kind: "read", fidn: uint32(100 + i), offset: uint64(7 * i), count: uint32(20 + i)})
+			}(i)
+		}
+		reqs := s.p.Collect(k, W)
+		if len(reqs) != k {
+			res.Inconclusive = "c10: requests missing"
+			s.close()
+			return res
+		}
+		// one segment: the complete reply to the first request and the first bytes of the reply to the second
+		first := wire.Encode(withTag(s.p.Answer(reqs[0].Msg), reqs[0].Msg.Tag), dotu)
+		second := wire.Encode(withTag(s.p.Answer(reqs[1].Msg), reqs[1].Msg.Tag), dotu)
+		part := 1 + round%(len(second)-1)
+		seg := append(append([]byte{}, first...), second[:part]...)
+		var once sync.Once
+		s.p.Cli.OnRead = func(n int) {
+			if n == len(seg) {
+				once.Do(func() { s.c.Unmount() })
+			}
+		}
+		s.p.SendRaw(seg)
+		done := make(chan struct{})
+		go func() { wg.Wait(); close(done) }()
+		res.Evals++
+		det := map[string]interface{}{"calls": k, "dotu": dotu, "bytes_of_second_reply": part}
+		select {
+		case <-done:
+		case <-time.After(W):
+			res.Inconclusive = "c10: calls did not return after Unmount (judged by the hang scenarios)"
+			s.p.Srv.Close()
+			return res
+		}
+		// which call got the first request? (requests reach the peer in any order)
+		fi := int(reqs[0].Msg.Fid) - 100
+		if fi < 0 || fi >= k {
+			res.Inconclusive = "c10: unexpected fid"
+			s.close()
+			return res
+		}
+		if results[fi] != "" {
+			res.Violate("C10;unmount-after-reply;complete-reply-lost", fmt.Sprintf("the reply to a call had been read from the transport completely when Unmount was called; the call returned %q", results[fi]), det)
+		}
+		for i := 0; i < k; i++ {
+			if i != fi && results[i] == "" {
+				res.Violate("C10;unmount-after-reply;success-without-reply", "a call whose reply had not (or only partly) arrived when Unmount was called returned success", det)
+			}
+		}
+		if r := s.do(call{kind: "stat", fidn: 1}); r == "" {
+			res.Violate("C10;unmount-after-reply;later-call-succeeds", "a call after Unmount returned success", det)
+		}
+		res.Sig(fmt.Sprintf("unmount-after-reply|k=%d|dotu=%v|part=%d", k, dotu, part))
+		s.p.Srv.Close()
+	}
+	return res
+}
+
+func withTag(m *wire.Msg, tag uint16) *wire.Msg { m.Tag = tag; return m }
